@@ -854,6 +854,14 @@ def r17_1_positions(ctx):
         r.check(okf, 'format_rec_error: %s receives every leaf of the error tree (duplicates aside) before it is rendered' % acc,
                 g.key('collects-leaves'), g.loc(), 'the list of causes that format_rec_error renders (%s) is not filled with every leaf of '
                 'the error tree: the message can come out without any cause - and without any position' % acc)
+    if not P.has_func('yatiml.irecognizer:format_rec_error.find_leaves'):
+        # no separate leaf walk: it may be written out in format_rec_error itself as a loop over an explicit stack
+        ok = _inline_worklist_leaf_walk(g, rp0, accs)
+        r.check(ok, 'format_rec_error walks the error tree itself (explicit stack): the message of every cause-free node is collected, '
+                    'every cause is pushed', g.key('find_leaves:shape'), g.loc(),
+                'format_rec_error has no find_leaves and does not collect exactly the messages of the cause-free nodes with a worklist')
+        r.done()
+        return
     leaves = fn(P, 'yatiml.irecognizer:format_rec_error.find_leaves')
     lr = leaves.returns()
     rp = leaves.fi.params[0]
@@ -866,6 +874,45 @@ def r17_1_positions(ctx):
     r.check(ok, 'find_leaves returns [message] for a node without causes and the leaves of all causes otherwise', leaves.key('shape'), leaves.loc(),
             'find_leaves no longer collects exactly the messages of the cause-free nodes')
     r.done()
+
+
+def _inline_worklist_leaf_walk(g: Fn, rp0: str, rendered: Set[str]) -> bool:
+    """`acc = []; todo = [<error>]; while todo: message, causes = todo.pop(); if causes: todo.extend(causes | reversed(causes)) else:
+    acc.append(message)` - and what is rendered is made from acc"""
+    whiles = [w for w in g.walk() if isinstance(w, ast.While) and isinstance(w.test, ast.Name) and not w.orelse]
+    for w in whiles:
+        todo = w.test.id
+        inits = [n for n in g.walk() if isinstance(n, ast.Assign) and len(n.targets) == 1 and norm(n.targets[0]) == todo]
+        if len(inits) != 1 or norm(inits[0].value) != '[%s]' % rp0 or not w.body:
+            continue
+        first = w.body[0]
+        if not (isinstance(first, ast.Assign) and isinstance(first.targets[0], ast.Tuple) and len(first.targets[0].elts) == 2
+                and norm(first.value) == '%s.pop()' % todo and all(isinstance(t, ast.Name) for t in first.targets[0].elts)):
+            continue
+        msg, causes = [t.id for t in first.targets[0].elts]
+        if any(isinstance(x, (ast.Break, ast.Continue, ast.Return)) for st in w.body for x in ast.walk(st)):
+            continue
+        pushes = [c for st in w.body for c in ast.walk(st) if isinstance(c, ast.Call) and isinstance(c.func, ast.Attribute)
+                  and norm(c.func.value) == todo and c.func.attr in ('extend', 'append')]
+        adds = [c for st in w.body for c in ast.walk(st) if isinstance(c, ast.Call) and isinstance(c.func, ast.Attribute)
+                and c.func.attr in ('append', 'add', 'setdefault') and isinstance(c.func.value, ast.Name) and c.func.value.id != todo and c.args
+                and norm(c.args[0]) == msg]
+        if len(pushes) != 1 or len(adds) != 1 or pushes[0].func.attr != 'extend' or norm(pushes[0].args[0]) not in (causes, 'reversed(%s)' % causes):
+            continue
+        gp = {G.canon_atom(a_, p_) for a_, p_ in g.guards(pushes[0]) if causes in norm(a_)}
+        ga = {G.canon_atom(a_, p_) for a_, p_ in g.guards(adds[0]) if causes in norm(a_)}
+        if not (gp <= {(causes, True)} and ga == {(causes, False)}):
+            continue
+        acc = adds[0].func.value.id
+        # what is rendered comes from the accumulator
+        flows = acc in rendered or any(isinstance(n, ast.Assign) and any(isinstance(x, ast.Name) and x.id == acc for x in ast.walk(n.value))
+                                       and any(isinstance(t, ast.Name) and t.id in rendered for t in n.targets) for n in g.walk())
+        if not flows:
+            flows = any(acc in g.alpha.text(ret.value) or acc in norm(ret.value) for ret in g.returns() if ret.value is not None) or any(
+                isinstance(n, ast.Assign) and acc in norm(n.value) for n in g.walk())
+        if flows:
+            return True
+    return False
 
 
 def _accumulating_leaf_walk(leaves: Fn, rp: str) -> bool:
